@@ -50,7 +50,7 @@ type signersEnv struct {
 	msgNames []string
 	exp      time.Time
 
-	scopeUUID, sessUUID, oldSessUUID, scopeSpecUUID, cSpecUUID uuid.UUID
+	scopeUUID, sessUUID, oldSessUUID, scopeSpecUUID, scopeSpec2UUID, cSpecUUID uuid.UUID
 
 	// exhaustive enumeration only: a context whose authz store already holds sharedGrants
 	wantShared   bool
@@ -106,6 +106,7 @@ func signersSetup(t *testing.T) *signersEnv {
 		e.oldSessUUID = uuid.MustParse("33333333-3333-4333-8333-333333333333")
 		e.scopeSpecUUID = uuid.MustParse("44444444-4444-4444-8444-444444444444")
 		e.cSpecUUID = uuid.MustParse("55555555-5555-4555-8555-555555555555")
+		e.scopeSpec2UUID = uuid.MustParse("66666666-6666-4666-8666-666666666666")
 		e.base = ctx
 		signersE = e
 	})
@@ -221,33 +222,58 @@ func (e *signersEnv) newMsg(short string, signers []string) (types.MetadataMsg, 
 	return v.Interface().(types.MetadataMsg), nil
 }
 
-func (e *signersEnv) saveGrants(ctx sdk.Context, s string) error {
+// saveGrants stores the grants of the op line in the REAL authz keeper.  Flavours:
+// `g>e:T` GenericAuthorization; `g>e:T#k` CountAuthorization with k uses left (k ≥ 1);
+// `g>e:T!` a GenericAuthorization that expired an hour ago.  Returns whether a consumable
+// (count) grant was stored.
+func (e *signersEnv) saveGrants(ctx sdk.Context, s string) (bool, error) {
+	consumable := false
 	for _, g := range signersList(s) {
 		f := strings.Split(g, ":")
 		if len(f) != 2 {
-			return fmt.Errorf("bad grant %q", g)
+			return false, fmt.Errorf("bad grant %q", g)
 		}
 		pair := strings.Split(f[0], ">")
 		if len(pair) != 2 {
-			return fmt.Errorf("bad grant %q", g)
+			return false, fmt.Errorf("bad grant %q", g)
 		}
 		granter, err := sdk.AccAddressFromBech32(e.bech[pair[0]])
 		if err != nil {
-			return fmt.Errorf("grant %q: granter: %w", g, err)
+			return false, fmt.Errorf("grant %q: granter: %w", g, err)
 		}
 		grantee, err := sdk.AccAddressFromBech32(e.bech[pair[1]])
 		if err != nil {
-			return fmt.Errorf("grant %q: grantee: %w", g, err)
+			return false, fmt.Errorf("grant %q: grantee: %w", g, err)
 		}
-		if _, ok := e.msgTypes[f[1]]; !ok {
-			return fmt.Errorf("grant %q: unknown type", g)
+		ty, expired, count := f[1], false, 0
+		if strings.HasSuffix(ty, "!") {
+			ty, expired = strings.TrimSuffix(ty, "!"), true
 		}
-		exp := e.exp
-		if err = e.app.AuthzKeeper.SaveGrant(ctx, grantee, granter, authz.NewGenericAuthorization(signersMsgPrefix+f[1]+"Request"), &exp); err != nil {
-			return err
+		if i := strings.Index(ty, "#"); i >= 0 {
+			if count, err = strconv.Atoi(ty[i+1:]); err != nil || count < 1 {
+				return false, fmt.Errorf("grant %q: bad count", g)
+			}
+			ty = ty[:i]
+		}
+		if _, ok := e.msgTypes[ty]; !ok {
+			return false, fmt.Errorf("grant %q: unknown type", g)
+		}
+		url := signersMsgPrefix + ty + "Request"
+		var a authz.Authorization = authz.NewGenericAuthorization(url)
+		if count > 0 {
+			a = authz.NewCountAuthorization(url, int32(count))
+			consumable = true
+		}
+		exp, sctx := e.exp, ctx
+		if expired {
+			exp = ctx.BlockTime().Add(-time.Hour)
+			sctx = ctx.WithBlockTime(ctx.BlockTime().Add(-2 * time.Hour))
+		}
+		if err = e.app.AuthzKeeper.SaveGrant(sctx, grantee, granter, a, &exp); err != nil {
+			return false, err
 		}
 	}
-	return nil
+	return consumable, nil
 }
 
 // ---- canonical output ----------------------------------------------------------------
@@ -425,6 +451,20 @@ func (e *signersEnv) exec(line string) (res string) {
 		return "bad-op"
 	}
 	var ctx sdk.Context
+	consumable := false
+	// fresh: a second context with the same grants, for the second call of wp/wo when a
+	// count authorization would otherwise be consumed twice
+	fresh := func() sdk.Context {
+		if !consumable {
+			return types.AddAuthzCacheToContext(ctx) // clears the cache
+		}
+		c, _ := e.base.CacheContext()
+		c = types.AddAuthzCacheToContext(c)
+		if _, err := e.saveGrants(c, op.kv["grants"]); err != nil {
+			panic(err)
+		}
+		return c
+	}
 	if e.shared != nil && e.sharedGrants == op.kv["grants"] && (op.kind == "wp" || op.kind == "wo") {
 		// wp/wo write nothing (generic authorizations are not consumed): reuse the context,
 		// with an emptied authz cache
@@ -432,10 +472,10 @@ func (e *signersEnv) exec(line string) (res string) {
 	} else {
 		ctx, _ = e.base.CacheContext()
 		ctx = types.AddAuthzCacheToContext(ctx)
-		if err = e.saveGrants(ctx, op.kv["grants"]); err != nil {
+		if consumable, err = e.saveGrants(ctx, op.kv["grants"]); err != nil {
 			return "bad-op"
 		}
-		if e.wantShared {
+		if e.wantShared && !consumable {
 			c := ctx
 			e.shared, e.sharedGrants = &c, op.kv["grants"]
 		}
@@ -465,7 +505,7 @@ func (e *signersEnv) exec(line string) (res string) {
 			return "bad-op"
 		}
 		ds, herr := k.VerifValidateAllRequiredPartiesSigned(ctx, req, avail, roles, msg)
-		ctx = types.AddAuthzCacheToContext(ctx) // clears the cache
+		ctx = fresh()
 		verr := k.ValidateSignersWithParties(ctx, req, avail, roles, msg)
 		if verr != nil {
 			if herr != nil && signersFirst(e.class(herr)) != signersFirst(e.class(verr)) {
@@ -484,7 +524,7 @@ func (e *signersEnv) exec(line string) (res string) {
 			return "bad-op"
 		}
 		ds, herr := k.VerifValidateAllRequiredSigned(ctx, required, msg)
-		ctx = types.AddAuthzCacheToContext(ctx)
+		ctx = fresh()
 		verr := k.ValidateSignersWithoutParties(ctx, required, msg)
 		if verr != nil {
 			if herr != nil && signersFirst(e.class(herr)) != signersFirst(e.class(verr)) {
@@ -508,7 +548,17 @@ func (e *signersEnv) exec(line string) (res string) {
 				return "bad-op"
 			}
 		}
-		_, verr := k.ValidateWriteScope(ctx, &types.MsgWriteScopeRequest{Scope: e.mkScope(proposed), Signers: signers})
+		prop := e.mkScope(proposed)
+		if nr, ok := op.kv["newroles"]; ok {
+			// the proposed scope names another scope specification
+			newRoles, err4 := signersRoles(nr)
+			if err4 != nil {
+				return "bad-op"
+			}
+			prop.SpecificationId = types.ScopeSpecMetadataAddress(e.scopeSpec2UUID)
+			k.SetScopeSpecification(ctx, types.ScopeSpecification{SpecificationId: prop.SpecificationId, PartiesInvolved: newRoles})
+		}
+		_, verr := k.ValidateWriteScope(ctx, &types.MsgWriteScopeRequest{Scope: prop, Signers: signers})
 		return e.class(verr)
 	case "dscope":
 		scope, err1 := e.scope(op.kv["scope"])
@@ -784,13 +834,20 @@ func sgContains(xs []string, x string) bool {
 
 func (g *sgGen) grantType() string {
 	x := g.r.Intn(100)
+	t := Pick(g.r, g.e.msgNames)
 	if p, ok := sgParent[g.mt]; ok && x < 35 {
-		return p
+		t = p
+	} else if x < 88 {
+		t = g.mt
 	}
-	if x < 88 {
-		return g.mt
+	// flavour: mostly generic; some count authorizations; a few expired
+	switch y := g.r.Intn(100); {
+	case y < 10:
+		t += "#" + strconv.Itoa(1+g.r.Intn(2))
+	case y < 14:
+		t += "!"
 	}
-	return Pick(g.r, g.e.msgNames)
+	return t
 }
 
 func sgValidName(a string) bool { return a != "X" && a != "E" }
@@ -903,12 +960,16 @@ func (g *sgGen) signersFor(must []sgParty, avail []sgParty, roles []int, mention
 			}
 		}
 	}
-	// dedupe grants
+	// one grant per (granter, grantee, type): authz stores one, whatever its flavour
 	seen := map[string]bool{}
 	var gs []string
 	for _, x := range g.grants {
-		if !seen[x] {
-			seen[x] = true
+		k := strings.TrimSuffix(x, "!")
+		if i := strings.Index(k, "#"); i >= 0 {
+			k = k[:i]
+		}
+		if !seen[k] {
+			seen[k] = true
 			gs = append(gs, x)
 		}
 	}
@@ -1022,7 +1083,7 @@ func (g *sgGen) genCaller() string {
 	switch x := g.r.Intn(100); {
 	case x < 14: // wscope
 		g.mt = "WriteScope"
-		roles := g.roles(owners, 2)
+		var roles []int
 		existing := "none"
 		propRollup, propOther, propOwners := rollup, other, owners
 		var must, avail []sgParty
@@ -1058,11 +1119,29 @@ func (g *sgGen) genCaller() string {
 				}
 			}
 		}
+		// the spec's roles: mostly such that the proposed owners have them
+		if g.r.Chance(75) {
+			roles = g.roles(propOwners, 2)
+		} else {
+			roles = g.roles(owners, 2)
+		}
 		if !rollup {
 			avail = nil
 		}
-		g.signersFor(must, avail, roles, sgAddrsOf(owners, propOwners))
-		return fmt.Sprintf("wscope existing=%s proposed=%s roles=%s", existing, sgScope(propRollup, propOther, propOwners), sgRoles(roles)) + g.tail()
+		newRoles, coverRoles := "", roles
+		if existing != "none" && g.r.Chance(20) {
+			// the proposed scope names another specification (its roles come from the proposed owners)
+			nr := g.roles(propOwners, 2)
+			if len(nr) == 0 { // a scope specification names at least one role
+				nr = []int{propOwners[0].role}
+			}
+			newRoles = " newroles=" + sgRoles(nr)
+			if g.r.Bool() {
+				coverRoles = nr
+			}
+		}
+		g.signersFor(must, avail, coverRoles, sgAddrsOf(owners, propOwners))
+		return fmt.Sprintf("wscope existing=%s proposed=%s roles=%s%s", existing, sgScope(propRollup, propOther, propOwners), sgRoles(roles), newRoles) + g.tail()
 	case x < 24: // dscope
 		g.mt = "DeleteScope"
 		roles := g.roles(owners, 2)
@@ -1414,6 +1493,12 @@ func (e *signersEnv) run(line string, out *Out) {
 		out.Count("grants:0")
 	} else {
 		out.Count("grants:>0")
+		if strings.Contains(line, "#") {
+			out.Count("grants:count-authorization")
+		}
+		if strings.Contains(line, "!") {
+			out.Count("grants:expired")
+		}
 	}
 	if strings.Contains(line, "/1/") || kind == "wp" {
 		out.Count("mode:rollup")
